@@ -54,6 +54,11 @@ class Sweep:
                           actual="timeout", key=f"timeout:{param}:{vk}", how=how)
             return
         raised = res["outcome"] == "raise"
+        if verdict == "unspec" and v[0] == "gemini":
+            # an object that is merely callable handed over as a kernel: what happens inside the user's callable is the
+            # user's business (any exception type, at whatever point of fit it is first called) — counted, not judged
+            ctx.count("call:opaque-callable-" + ("raised" if raised else "ran"))
+            return
         if verdict == "in" and raised:
             ctx.violation(f"{who} is inside the documented domain and is rejected: {_exc(res['exc'])}", "sweep", inp,
                           expected="accepted", actual=_exc(res["exc"]), key=f"false-reject:{param}:{vk}", how=how)
@@ -83,9 +88,32 @@ def run(ctx):
                 "with indices in -1..4 on d in 0..4 features.  A case is non-trivial when the value is not of a type that "
                 "no constraint of that parameter could accept trivially (i.e. a constraint of the row inspects it); "
                 "distinct = distinct (owner, param, value, realisation)")
+    ctx.trusted += [
+        "scikit-learn's validators (`Interval`, `StrOptions`, `_InstancesOf`, `_RandomStates`, `_ArrayLikes`, `check_array`, "
+        "`validate_data`, `check_is_fitted`) are modelled (`Model.Constraints.satisfies`), not verified; the model is compared "
+        "with the installed validator objects on every (parameter, value, realisation) of every run",
+        "members of scikit-learn's PAIRWISE_KERNEL_FUNCTIONS / PAIRWISE_DISTANCE_FUNCTIONS / PAIRED_DISTANCES are listed in "
+        "Model/Constraints.lean and compared with the installed scikit-learn on every run",
+        "translator/constraints.py (ast -> Gen/Constraints.lean) is validated by the table-level correspondence and by the "
+        "signature / table-key comparison with the live classes",
+        "documented domains (Lemmas/Constraints.lean, `Spec.Constraints.documented`) are a hand reading of the docstrings; "
+        "values the docstrings do not settle (bool for an int/float, numpy.bool_ for a bool, bare callables, a few boundary "
+        "points) are `unspecified` and only required to end cleanly"]
+    ctx.assumptions += ["representative values stand for their class: each class is realised by 1-3 concrete Python objects",
+                        "fit is run on one 12x3 non-negative data set with max_iter=1; integers above 1000 are not run through "
+                        "fit / the generators (table level only), except as seeds"]
+    import time
+    t0 = time.time()
+    phases = ctx.extra.setdefault("phase_seconds", {})
+
+    def mark(name):
+        nonlocal t0
+        phases[name] = round(time.time() - t0, 1)
+        t0 = time.time()
     fit_lib.quiet()
     data = regen(ctx)
     ctx.do_prove()
+    mark("regenerate+prove")
     if data is None:
         return ctx.finish()
     try:
@@ -115,7 +143,9 @@ def run(ctx):
     triples = [(o, p, v) for (o, p) in keys for v in universe]
     lines = [f"acc {o} {p} {cl.value_token(v)}" for o, p, v in triples] + \
             [f"doc {o} {p} {cl.value_token(v)}" for o, p, v in triples]
+    mark("meta+static")
     outs = core.run_driver("Constraints", lines)
+    mark("driver(acc+doc)")
     acc = dict(zip(triples, outs[:len(triples)]))
     doc = dict(zip(triples, outs[len(triples):]))
     sweep = Sweep(ctx, unval)
@@ -196,12 +226,17 @@ def run(ctx):
         if t not in known_seen:
             ctx.corr_break("knownDeviations", {"entry": str(t)}, "entry was not exercised on the real code")
 
+    mark("sweep")
     # ---------------------------------------------------------------- scalar tests, groups, data, before-fit
     kauri_and_mask(ctx, ests, X)
+    mark("kauri+mask")
     check_groups_part(ctx, ests, X, rs)
+    mark("check_groups")
     groups_content(ctx, ests, X)
+    precomputed_without_affinity(ctx, ests, X)
     malformed_data(ctx, ests)
     before_fit(ctx, ests, X)
+    mark("content+data+before-fit")
     return ctx.finish()
 
 
@@ -418,6 +453,42 @@ def groups_content(ctx, ests, X):
                 ctx.violation(f"{how}: groups with {what} rejected with {_exc(res['exc'])}, leaving {res['learned']}", "groups-content", inp,
                               expected="ValueError/TypeError, no fitted model", actual=[_exc(res["exc"]), res["learned"]],
                               key=f"groups-content:unclean:{what}", how=how)
+
+
+def precomputed_without_affinity(ctx, ests, X):
+    """inconsistent combination: kernel/metric 'precomputed' and no matrix handed to fit (documented: "a custom kernel
+    matrix must be passed to the argument y").  Kauri documents and implements a fallback (DESIGN section 12): not judged."""
+    from gemclus.gemini import MMDGEMINI, WassersteinGEMINI
+    cases = []
+    for name, cls in ests.items():
+        if name == "Kauri":
+            continue
+        params = [p for p in inspect.signature(cls.__init__).parameters if p != "self"]
+        for p in ("kernel", "metric"):
+            if p in params:
+                cases.append((name, {p: "precomputed"}, f"{p}='precomputed'"))
+        if "gemini" in params:
+            cases.append((name, {"gemini": MMDGEMINI(kernel="precomputed")}, "gemini=MMDGEMINI(kernel='precomputed')"))
+            cases.append((name, {"gemini": WassersteinGEMINI(metric="precomputed")}, "gemini=WassersteinGEMINI(metric='precomputed')"))
+    for name, kw, desc in cases:
+        m = ests[name](max_iter=1, **kw)
+        try:
+            with cl.quiet_io(), cl.time_limit(30):
+                m.fit(X)
+            exc = None
+        except Exception as e:     # noqa
+            exc = e
+        ctx.case(("precomputed", name, desc), True, None)
+        ctx.compared("precomputed-without-y")
+        learned = cl.learned_attrs(m)
+        inp = {"owner": name, "config": desc}
+        how = f"{name}({desc}, max_iter=1).fit(X 12x3)  # y=None"
+        if exc is None:
+            ctx.violation(f"{how}: trained although no precomputed matrix was given", "precomputed-without-y", inp,
+                          expected="ValueError", actual="fitted", key="precomputed-without-y:accepted", how=how)
+        elif not cl.family(exc) or learned:
+            ctx.violation(f"{how}: rejected with {_exc(exc)}, leaving {learned}", "precomputed-without-y", inp,
+                          expected="ValueError/TypeError, no fitted model", actual=[_exc(exc), learned], key="precomputed-without-y", how=how)
 
 
 def malformed_data(ctx, ests):
